@@ -5,6 +5,7 @@ import (
 	"bytes"
 	"context"
 	"fmt"
+	"sort"
 	"sync"
 	"testing"
 	"time"
@@ -546,6 +547,106 @@ func TestUDPLostThenAnswered(t *testing.T) {
 	ev.Sample(map[string]any{"mode": "udp", "cases": len(cases)})
 }
 
+// TestUDPUndecodableThenAnswered: over the real UDP transport, the first
+// transmission of a command is answered with a datagram that cannot be decoded
+// (empty, 1 or 3 bytes, a bare RMCP header, random bytes), the second one
+// normally. Outside and inside a session the command must be sent again and
+// return the final answer after exactly two transmissions.
+func TestUDPUndecodableThenAnswered(t *testing.T) {
+	garbage := map[string][]byte{"empty": {}, "1-byte": {0x06}, "3-bytes": {0x06, 0x00, 0xff}, "bare-rmcp-header": {0x06, 0x00, 0xff, 0x07},
+		"random-20": {0x9c, 0x01, 0x55, 0xaa, 0x06, 0x00, 0xff, 0x07, 0x06, 0xc0, 1, 2, 3, 4, 5, 6, 7, 8, 9, 10}}
+	var names []string
+	for n := range garbage {
+		names = append(names, n)
+	}
+	sort.Strings(names)
+	var wg sync.WaitGroup
+	var mu sync.Mutex
+	var firstMsg string
+	i := 0
+	for _, inSession := range []bool{false, true} {
+		for _, name := range names {
+			i++
+			i, inSession, name := i, inSession, name
+			wg.Add(1)
+			go func() {
+				defer wg.Done()
+				msg := func() string {
+					cr := hx.Creds{User: "admin", Password: []byte("pw"), Priv: 4, Suite: hx.Suites12()[(i+int(ev.Seed))%12], Seed: uint64(ev.Seed)*17 + uint64(i)}
+					b := simbmc.New(cr.Seed)
+					cr.Install(b)
+					srv, err := udpnet.Listen(b)
+					if err != nil {
+						return ""
+					}
+					defer srv.Close()
+					tr, err := bmc.DialV2(srv.Addr(), bmc.WithTimeout(400*time.Millisecond))
+					if err != nil {
+						return ""
+					}
+					defer tr.Close()
+					ctx, cancel := context.WithTimeout(context.Background(), 30*time.Second)
+					defer cancel()
+					var sess *bmc.V2Session
+					if inSession {
+						if sess, err = tr.NewV2Session(ctx, cr.Opts()); err != nil {
+							return ""
+						}
+					}
+					seen := 0
+					srv.Arm(func(rx *simbmc.Rx) []udpnet.Reply {
+						seen++
+						if seen == 1 {
+							return []udpnet.Reply{{Data: garbage[name]}}
+						}
+						var out []udpnet.Reply
+						for _, o := range rx.Replies {
+							out = append(out, udpnet.Reply{Data: o.Data})
+						}
+						return out
+					})
+					var code ipmi.CompletionCode
+					cmd := &ipmi.GetDeviceIDCmd{}
+					if inSession {
+						code, err = sess.SendCommand(ctx, cmd)
+					} else {
+						code, err = tr.SendCommand(ctx, cmd)
+					}
+					srv.Lock()
+					defer srv.Unlock()
+					where := fmt.Sprintf("UDP, inSession=%v, first transmission answered with an undecodable datagram (%s), second normally", inSession, name)
+					if err != nil || code != ipmi.CompletionCodeNormal {
+						return fmt.Sprintf("%s: code %#x err %v after %d transmissions; the contract says re-send and return the final answer", where, uint8(code), err, seen)
+					}
+					if seen != 2 {
+						return fmt.Sprintf("%s: BMC saw %d transmissions, want 2", where, seen)
+					}
+					if cmd.Rsp.ID != b.Data.DeviceID.ID || uint32(cmd.Rsp.Manufacturer) != uint32(b.Data.DeviceID.IANA) {
+						return fmt.Sprintf("%s: returned value is not the BMC's: %+v", where, cmd.Rsp)
+					}
+					if p := b.AllProblems(); len(p) > 0 {
+						return fmt.Sprintf("%s: malformed datagrams: %v", where, p)
+					}
+					return ""
+				}()
+				mu.Lock()
+				defer mu.Unlock()
+				ev.Eval()
+				ev.NonTrivial(fmt.Sprintf("udp-garbage|%v|%s", inSession, name))
+				ev.Label("retried:udp-undecodable")
+				if msg != "" && firstMsg == "" {
+					firstMsg = msg
+					ev.Violation("TestUDPUndecodableThenAnswered", map[string]any{"inSession": inSession, "garbage": name}, msg)
+				}
+			}()
+		}
+	}
+	wg.Wait()
+	if firstMsg != "" {
+		t.Fatalf("%s", firstMsg)
+	}
+}
+
 // TestUDPInSessionLostReply: over the real UDP transport and clock, an in-session
 // command whose reply never arrives ends with an error after exactly one
 // transmission (inside a session a transport failure is final), many times over so
@@ -637,5 +738,5 @@ func TestUDPInSessionLostReply(t *testing.T) {
 
 func TestCoverage(t *testing.T) {
 	ev.RequireLabels(t, 1, "sequence:in-session-command-after-a-transport-failure")
-	ev.RequireLabels(t, 1, "enumeration-complete", "every-final-code", "handshake-enumeration-complete", "retried:inSession=true", "retried:inSession=false", "retried:handshake", "retried:udp", "udp:in-session-lost-reply")
+	ev.RequireLabels(t, 1, "enumeration-complete", "every-final-code", "handshake-enumeration-complete", "retried:inSession=true", "retried:inSession=false", "retried:handshake", "retried:udp", "retried:udp-undecodable", "udp:in-session-lost-reply")
 }
